@@ -9,9 +9,8 @@ import (
 	"sort"
 	"strings"
 	"sync"
+	"sync/atomic"
 	"time"
-
-	"github.com/lidofinance/dc4bc/client/api/dto"
 
 	"verifharness/world"
 )
@@ -29,7 +28,8 @@ func raceSoakWorker(args []string) int {
 	if len(args) > 0 {
 		fmt.Sscan(args[0], &seed)
 	}
-	w, err := world.NewWorld(world.Options{N: 2, T: 2, Seed: seed, UseLevelDB: true})
+	// like the daemon: the REST API and the poller share one process; the operators use the API
+	w, err := world.NewWorld(world.Options{N: 2, T: 2, Seed: seed, UseLevelDB: true, ViaHTTP: true})
 	if err != nil {
 		fmt.Fprintln(Out, "world:", err)
 		return 2
@@ -42,6 +42,7 @@ func raceSoakWorker(args []string) int {
 		go func(nd *world.Node) { defer wg.Done(); _ = nd.Svc.Poll() }(nd)
 	}
 	stop := make(chan struct{})
+	var roundID atomic.Value
 	var opMu sync.Mutex // the two operators share the world's result cache
 	for _, nd := range w.Nodes {
 		wg.Add(1)
@@ -58,10 +59,14 @@ func raceSoakWorker(args []string) int {
 					_ = w.HandleOp(nd, op)
 					opMu.Unlock()
 				}
-				if off, err := nd.Svc.GetStateOffset(); err == nil {
+				if off, err := nd.API.Offset(); err == nil {
 					_ = off
 				}
-				_, _ = nd.FSM.GetFSMList()
+				_, _ = nd.API.FSMList()
+				if r, _ := roundID.Load().(string); r != "" {
+					_, _ = nd.API.Batches(r)
+					_, _ = nd.API.Signatures(r)
+				}
 				time.Sleep(20 * time.Millisecond)
 			}
 		}(nd)
@@ -77,7 +82,7 @@ func raceSoakWorker(args []string) int {
 					return
 				default:
 				}
-				_, _ = nd.Svc.GetStateOffset()
+				_, _ = nd.API.Offset()
 				time.Sleep(time.Millisecond)
 			}
 		}(nd)
@@ -86,6 +91,7 @@ func raceSoakWorker(args []string) int {
 	if err != nil {
 		return 2
 	}
+	roundID.Store(ce.Round)
 	deadline := time.Now().Add(40 * time.Second)
 	proposed, reset := false, false
 	for time.Now().Before(deadline) {
@@ -97,8 +103,8 @@ func raceSoakWorker(args []string) int {
 		}
 		if proposed && !reset && ce.AllIn(StIdle) && len(BoardMsgs(w, ce.Round, EvSigRecon)) >= 2 {
 			// reset node 1 while its poller keeps running, then rewind through the offset API
-			_, _ = w.Nodes[1].FSM.ResetFSMState(&dto.ResetStateDTO{NewStateDBDSN: filepath.Join(w.Dir, "reset_db")})
-			_ = w.Nodes[1].Svc.SaveOffset(&dto.StateOffsetDTO{Offset: 0})
+			_, _ = w.Nodes[1].API.Raw("POST", "/resetState", nil, mkReq(map[string]interface{}{"new_state_dbdsn": filepath.Join(w.Dir, "reset_db")}))
+			_ = w.Nodes[1].API.SaveOffset(0)
 			reset = true
 			deadline = time.Now().Add(4 * time.Second)
 		}
